@@ -103,6 +103,33 @@ RequeuedN(rec, maxtries) ==
   IF tr < maxtries /\ ~rec.noretry THEN [rec EXCEPT !.st = "tosend", !.try = tr, !.reqsrv = 0]
   ELSE [rec EXCEPT !.st = "ending", !.try = tr, !.endst = IF rec.err = "" THEN "ETIMEOUT" ELSE rec.err, !.endrc = -1]
 
+(* ---- editing the server list (ares_set_servers*, reinit) --------------------------------------------- *)
+(* Servers that stay keep their health and take their new position; new ones start fresh.  Servers that are no longer
+   listed are destroyed one after the other in list order (least failures first, then position); destroying one
+   closes its connections and requeues what was in flight on it with one more try -- possibly onto a server that is
+   itself destroyed a moment later.  While anything is in flight on a removed server it therefore stays a member,
+   marked dying, until its turn comes. *)
+RECURSIVE PosIn(_, _, _)
+PosIn(L, s, i) == IF i > Len(L) THEN 0 ELSE IF L[i] = s THEN i ELSE PosIn(L, s, i + 1)
+SeqSet(L) == {L[i] : i \in 1..Len(L)}
+InflightOnIn(qq, s) == {id \in DOMAIN qq : qq[id].st = "inflight" /\ qq[id].srv = s}
+ListEdit(sv, qq, L) ==
+  LET keep == SeqSet(L)
+      gone == (DOMAIN sv) \ keep
+      busy == \E s \in gone : InflightOnIn(qq, s) # {}
+      all == IF busy THEN keep \cup gone ELSE keep
+  IN [s \in all |-> IF s \in keep
+                     THEN (IF s \in DOMAIN sv THEN [sv[s] EXCEPT !.idx = PosIn(L, s, 1)]
+                           ELSE [fails |-> 0, nextRetry |-> 0, m |-> EmptyMetrics, idx |-> PosIn(L, s, 1), dying |-> FALSE])
+                     ELSE [sv[s] EXCEPT !.dying = TRUE]]
+DyingIn(sv) == {s \in DOMAIN sv : sv[s].dying}
+BeforeIn(sv, a, b) == sv[a].fails < sv[b].fails \/ (sv[a].fails = sv[b].fails /\ sv[a].idx < sv[b].idx)
+(* the turn of dying server s has come: it leaves together with the dying servers before it that had nothing in flight *)
+DestroySet(sv, qq, s) == {d \in DyingIn(sv) : d = s \/ (BeforeIn(sv, d, s) /\ InflightOnIn(qq, d) = {})}
+AfterDestroy(sv, qq, s) ==
+  LET n2 == (Cardinality(DOMAIN sv) - Cardinality(DestroySet(sv, qq, s))) * cfg.tries IN
+  [id \in DOMAIN qq |-> IF id \in InflightOnIn(qq, s) THEN RequeuedN(qq[id], n2) ELSE qq[id]]
+
 FailServerIn(sv, s) == [sv EXCEPT ![s].fails = @ + 1, ![s].nextRetry = now + cfg.retrydelay]
 FailServer(s) == FailServerIn(srv, s)
 
